@@ -26,9 +26,25 @@ def main(argv):
         return 2
     prop = argv[0]
     tier = argv[1] if len(argv) > 1 else os.environ.get('VERIF_TIER', 'quick')
-    common.setup_env()
-    mod = importlib.import_module('check_' + prop)
-    return mod.main(tier, common.seed_from_env())
+    try:
+        common.setup_env()
+        mod = importlib.import_module('check_' + prop)
+        return mod.main(tier, common.seed_from_env())
+    except Exception:  # noqa
+        # the harness itself could not be run against this tree (an internal name it drives or observes is gone,
+        # the package does not import, ...): the correspondence between model and code no longer checks
+        import traceback
+        tb = traceback.format_exc()
+        os.makedirs(os.path.join(common.VERIF, 'replays'), exist_ok=True)
+        path = os.path.join(common.VERIF, 'replays', '%s-harness.json' % prop)
+        with open(path, 'w') as f:
+            json.dump(dict(property=prop, tier=tier, kind='correspondence-harness-could-not-run',
+                           theorem='correspondence check of %s (harness/check_%s.py and its drivers) against the '
+                                   'current tree' % (prop, prop),
+                           detail=tb[-4000:]), f, indent=1)
+        sys.stdout.write(tb[-1500:] + '\n')
+        print('VIOLATION property=%s replay=%s no-failing-input-found' % (prop, path))
+        return 1
 
 
 if __name__ == '__main__':
